@@ -102,11 +102,13 @@ __CPROVER_ensures(CL_DO ==> (ws->closed && g_aio_close_calls == OLD(g_aio_close_
 __CPROVER_ensures(CL_NOMEM ==> (!ws->wclose && g_fin_last == &ws->closeaio && g_fin_last_rv == NNG_ENOMEM && WSF_FQ_SAME(g_txq) && g_wr_calls == OLD(g_wr_calls) && g_free_calls == OLD(g_free_calls)))
 __CPROVER_ensures(CL_REFUSED ==> (!ws->wclose && g_free_calls == OLD(g_free_calls) + 1 && WSF_FQ_SAME(g_txq) && g_wr_calls == OLD(g_wr_calls)))
 __CPROVER_ensures(CL_SENT ==> (ws->wclose && g_start_calls == OLD(g_start_calls) + 1 && g_free_calls == OLD(g_free_calls)))
+#ifndef WSF_CLOSE_SUMMARY /* units that REPLACE ws_close use the contract without these three clauses (a weakening of the enforced text) */
 /* transmitter idle: the close frame goes out now (header, then the 2 payload bytes) */
 __CPROVER_ensures((CL_SENT && OLD(ws->txframe) == NULL) ==> (__CPROVER_is_fresh(ws->txframe, sizeof(ws_frame)) && WSF_IS_CLOSE_FRAME(ws->txframe, ws) && WSF_FQ_SAME(g_txq) && g_wr_calls == OLD(g_wr_calls) + 1 && g_wr_aio == &ws->txaio && g_io_http == ws->http))
 __CPROVER_ensures((CL_SENT && OLD(ws->txframe) == NULL) ==> (ws->txaio.a_nio == 2 && ws->txaio.a_iov[0].iov_buf == (void *) &ws->txframe->head[0] && ws->txaio.a_iov[0].iov_len == ws->txframe->hlen && ws->txaio.a_iov[1].iov_buf == (void *) &ws->txframe->sdata[0] && ws->txaio.a_iov[1].iov_len == 2))
 /* transmitter busy: the close frame is next in line (ahead of everything queued) */
 __CPROVER_ensures((CL_SENT && OLD(ws->txframe) != NULL) ==> (__CPROVER_is_fresh(g_txq.item[0], sizeof(ws_frame)) && WSF_IS_CLOSE_FRAME(g_txq.item[0], ws) && g_txq.n == OLD(g_txq.n) + 1 && g_txq.item[1] == OLD(g_txq.item[0]) && g_txq.item[2] == OLD(g_txq.item[1]) && ws->txframe == OLD(ws->txframe) && g_wr_calls == OLD(g_wr_calls)))
+#endif
 ;
 
 /* ---- arm the read of the next frame header ------------------------------ */
@@ -128,24 +130,32 @@ __CPROVER_ensures((!SR_IDLE && ws->rxframe != NULL) ==> (g_rd_calls == OLD(g_rd_
 __CPROVER_ensures((!SR_IDLE && ws->rxframe == NULL) ==> (g_rd_calls == OLD(g_rd_calls) && g_close_calls == OLD(g_close_calls) + 1 && g_close_code == WS_ST_INTERNAL && ws->closed && g_recvq.n == 0 && g_fin_calls >= OLD(g_fin_calls) + OLD(g_recvq.n)))
 ;
 
+
 /* ---- reassembly step, REPLACEMENT only (frame contracts) ----------------
  * ws_read_finish (real code, with the hand-off snapshot woven at its entry)
- * dispatches to one of these two; inside the ws_read_cb units they are
+ * dispatches to one of these two; inside the ws_read_frame_cb unit they are
  * replaced by assigns-only contracts: they may consume the receive queues,
  * complete waiting receivers (whose aio objects the caller never looks into)
  * and consume queued frames (length / payload cursor).
  * (They also release frames, which the caller never touches again.) */
-#define WSF_FINISH_ASSIGNS g_rxq, g_recvq, WSF_FIN_GHOSTS, WSF_ALLOC_GHOSTS, WSF_MSG_GHOSTS, WSF_CLOSE_GHOSTS; \
+#define WSF_RXQ_ITEM_FIELDS \
 	g_rxq.n >= 1 && g_rxq.n <= WSF_K: g_rxq.item[0]->len, g_rxq.item[0]->buf; \
 	g_rxq.n >= 2 && g_rxq.n <= WSF_K: g_rxq.item[1]->len, g_rxq.item[1]->buf; \
 	g_rxq.n >= 3 && g_rxq.n <= WSF_K: g_rxq.item[2]->len, g_rxq.item[2]->buf
+/* (the last line: what failing the connection on an out-of-memory condition touches, see ws_close) */
+#define WSF_FINISH_ASSIGNS g_rxq, g_recvq, WSF_FIN_GHOSTS, WSF_ALLOC_GHOSTS, WSF_MSG_GHOSTS, WSF_CLOSE_GHOSTS, \
+	ws->closed, ws->wclose, g_aio_close_calls, g_aio_reset_calls, WSF_RAND_GHOSTS, WSF_CTL_GHOSTS, g_start_calls, g_txq, ws->txframe, WSF_IOV_OF(ws->txaio), WSF_WR_GHOSTS, g_io_http; WSF_RXQ_ITEM_FIELDS
+#define WSF_FINISH_QUIET (g_close_calls == OLD(g_close_calls) && g_ctl_calls == OLD(g_ctl_calls) && ws->closed == OLD(ws->closed))
 #ifndef WSF_FINISH_FULL
 static void ws_read_finish_msg(nni_ws *ws)
 __CPROVER_assigns(WSF_FINISH_ASSIGNS)
+/* fails the connection only when there is no memory for the message (internal error) */
+__CPROVER_ensures(WSF_FINISH_QUIET || (g_close_calls == OLD(g_close_calls) + 1 && g_close_code == WS_ST_INTERNAL))
 ;
 #endif
 static void ws_read_finish_str(nni_ws *ws)
 __CPROVER_assigns(WSF_FINISH_ASSIGNS)
+__CPROVER_ensures(WSF_FINISH_QUIET)
 ;
 
 /* ---- 1. receive: header decode and rule enforcement (RFC 6455 5.2-5.5) --
@@ -155,17 +165,102 @@ __CPROVER_assigns(WSF_FINISH_ASSIGNS)
  * not empty (case DATA).  One contract text, one unit per case (WSF_CASE);
  * the case preconditions are the stage invariants, which the preceding case
  * establishes in its postcondition (so the chain HEAD -> EXT -> DATA is
- * checked, not assumed).
+ * checked, not assumed).  The complete frame is judged by ws_read_frame_cb,
+ * which has its own contract (same rules, stated on the decoded fields) and
+ * is replaced by it inside the ws_read_cb units; the ws_read_cb contract
+ * re-states the rules on the bytes as they came off the wire.
  *
  * The RFC says WHAT must fail the connection, not WHEN: a violation that is
  * visible early may be acted upon at any later stage before the frame is
  * delivered.  So every stage allows "fail now" for the violations visible so
- * far, and the last stage (the frame is complete) demands it. */
+ * far, and the last stage (the frame is complete) demands it.
+ *
+ * Vocabulary: WS = the connection, OF = the frame under test (a pointer
+ * expression valid in postconditions); both are re-bound per contract. */
+#define RXQ_SAME WSF_FQ_SAME(g_rxq)
+#define FIN_RXQ_SAME (g_fin_rxq.n == OLD(g_rxq.n) && (g_fin_rxq.n < 1 || g_fin_rxq.item[0] == OLD(g_rxq.item[0])) && (g_fin_rxq.n < 2 || g_fin_rxq.item[1] == OLD(g_rxq.item[1])))
+/* no frame was added to the message being reassembled */
+#define NOT_ADDED ((g_finish_calls == OLD(g_finish_calls) && RXQ_SAME) || (g_finish_calls == OLD(g_finish_calls) + 1 && FIN_RXQ_SAME))
+#define NO_PONG (g_ctl_calls == OLD(g_ctl_calls) || (g_ctl_calls == OLD(g_ctl_calls) + 1 && g_ctl_op == WS_OP_CLOSE))
+/* the connection is failed: ws_close exactly once; nothing delivered, no reply to the frame, no further read */
+#define FAILED_ANY (g_close_calls == OLD(g_close_calls) + 1 && g_rd_calls == OLD(g_rd_calls) && g_finish_calls == OLD(g_finish_calls) && RXQ_SAME && WS->closed && NO_PONG && WS->inmsg == OLD(WS->inmsg))
+#define FAILED(code) (FAILED_ANY && g_close_code == (code))
+/* the members of the reassembly queue are real frames */
+#define WSF_RXQ_PRE ((g_rxq.n < 1 || __CPROVER_is_fresh(g_rxq.item[0], sizeof(ws_frame))) && (g_rxq.n < 2 || __CPROVER_is_fresh(g_rxq.item[1], sizeof(ws_frame))))
+/* payload buffer of a frame of f->len bytes: none / the short buffer inside the frame / a heap block of exactly that size */
+#define WSF_PAYLOAD_PRE(f) (((f)->len == 0 && (f)->asize == 0 && (f)->adata == NULL && (f)->buf == NULL) || \
+	((f)->len > 0 && (f)->len < 126 && (f)->asize == 0 && (f)->adata == NULL && __CPROVER_pointer_in_range_dfcc(&(f)->sdata[0], (f)->buf, &(f)->sdata[0])) || \
+	((f)->len >= 126 && (f)->asize == (f)->len && __CPROVER_is_fresh((f)->adata, (f)->len) && __CPROVER_pointer_in_range_dfcc((f)->adata, (f)->buf, (f)->adata)))
+
+/* stage C: the complete frame is judged.  X = bits 0-6 of header byte 0
+ * (RSV1-3 + opcode), FINB = FIN bit, LEN = payload length, G = guard. */
+#define SC_OPC(x) ((x) & 0x0fu)
+#define SC_BAD(x, finb, len) (((x) & 0x70u) != 0 || !WS_OP_KNOWN(SC_OPC(x)) || (WS_OP_IS_CTL(SC_OPC(x)) && (!(finb) || (len) > 125)))
+#define SC_UNSUPP(x) (SC_OPC(x) == WS_OP_TEXT && !WS->recv_text)
+#define SC_SEQ_BAD(x) ((SC_OPC(x) == WS_OP_CONT && !OLD(WS->inmsg)) || (WS_OP_IS_DATA(SC_OPC(x)) && OLD(WS->inmsg)))
+#define SC_DATA_OK(x, finb, len) (!SC_BAD(x, finb, len) && !WS_OP_IS_CTL(SC_OPC(x)) && !SC_UNSUPP(x) && !SC_SEQ_BAD(x))
+#define SC_IS(x, finb, len, o) (!SC_BAD(x, finb, len) && SC_OPC(x) == (o))
+#define SC_QUIET (g_close_calls == OLD(g_close_calls))
+#define WSF_STAGE_C_ENSURES(G, X, FINB, LEN) \
+/* reserved bits, unknown opcode, fragmented or over-long control frame: failed (protocol error) */ \
+__CPROVER_ensures(((G) && SC_BAD(X, FINB, LEN)) ==> FAILED(WS_ST_PROTO)) \
+/* text frame while text is not accepted (NNG_OPT_WS_RECV_TEXT off), continuation without a start, new message inside a fragmented one: failed */ \
+__CPROVER_ensures(((G) && !SC_BAD(X, FINB, LEN) && !WS_OP_IS_CTL(SC_OPC(X)) && (SC_UNSUPP(X) || SC_SEQ_BAD(X))) ==> (FAILED_ANY && ((SC_UNSUPP(X) && g_close_code == WS_ST_UNSUPP) || (SC_SEQ_BAD(X) && g_close_code == WS_ST_PROTO)))) \
+/* acceptable data frame: handed to reassembly at the END of the queue, exactly once, with exactly the decoded length */ \
+__CPROVER_ensures(((G) && SC_DATA_OK(X, FINB, LEN)) ==> (g_finish_calls == OLD(g_finish_calls) + 1 && g_fin_rxq.n == OLD(g_rxq.n) + 1 && g_fin_rxq.item[OLD(g_rxq.n) % WSF_K] == OF && (OLD(g_rxq.n) < 1 || g_fin_rxq.item[0] == OLD(g_rxq.item[0])) && (OLD(g_rxq.n) < 2 || g_fin_rxq.item[1] == OLD(g_rxq.item[1])))) \
+__CPROVER_ensures(((G) && SC_DATA_OK(X, FINB, LEN)) ==> (g_fin_flen == (LEN) && g_fin_inmsg == !(FINB))) \
+__CPROVER_ensures(((G) && SC_DATA_OK(X, FINB, LEN)) ==> (WS->rxframe != OF)) \
+__CPROVER_ensures(((G) && SC_DATA_OK(X, FINB, LEN)) ==> ((SC_QUIET || SC_OOM) && (SC_QUIET ==> g_ctl_calls == OLD(g_ctl_calls)))) \
+/* PING: answered by ONE PONG of the same length (5.5.3) unless we are closing; PONG: ignored; neither reaches the application */ \
+__CPROVER_ensures(((G) && SC_IS(X, FINB, LEN, WS_OP_PING)) ==> (NOT_ADDED && WS->inmsg == OLD(WS->inmsg) && WS->rxframe != OF && (SC_QUIET || SC_OOM) && (SC_QUIET ==> (OLD(WS->closed) ? g_ctl_calls == OLD(g_ctl_calls) : (g_ctl_calls == OLD(g_ctl_calls) + 1 && g_ctl_op == WS_OP_PONG && g_ctl_len == (LEN)))))) \
+__CPROVER_ensures(((G) && SC_IS(X, FINB, LEN, WS_OP_PONG)) ==> (NOT_ADDED && WS->inmsg == OLD(WS->inmsg) && WS->rxframe != OF && (SC_QUIET || SC_OOM) && (SC_QUIET ==> g_ctl_calls == OLD(g_ctl_calls)))) \
+/* CLOSE: remembered; answered by a close (normal closure) if we were not closing already; nothing more is read */ \
+__CPROVER_ensures(((G) && SC_IS(X, FINB, LEN, WS_OP_CLOSE)) ==> (WS->peer_closed && WS->closed && RXQ_SAME && g_finish_calls == OLD(g_finish_calls) && g_rd_calls == OLD(g_rd_calls) && NO_PONG && WS->inmsg == OLD(WS->inmsg))) \
+__CPROVER_ensures(((G) && SC_IS(X, FINB, LEN, WS_OP_CLOSE)) ==> (OLD(WS->closed) ? (g_close_calls == OLD(g_close_calls) && g_fin_calls == OLD(g_fin_calls) + 1 && g_fin_last == &WS->closeaio && g_fin_last_rv == 0) : (g_close_calls == OLD(g_close_calls) + 1 && g_close_code == WS_ST_NORMAL)))
+
+/* -- the judge: ws_read_frame_cb(ws, frame), frame == ws->rxframe complete and unmasked -- */
+#define WS ws
+#define OF frame
+/* the only other way to end up closing: the reassembly step ran out of memory */
+#define SC_OOM (g_close_calls == OLD(g_close_calls) + 1 && g_close_code == WS_ST_INTERNAL && g_finish_calls == OLD(g_finish_calls) + 1)
+#define FC_X ((unsigned) OLD(frame->op))
+#define FC_FIN OLD(frame->final)
+#define FC_LEN OLD(frame->len)
+static void ws_read_frame_cb(nni_ws *ws, ws_frame *frame)
+__CPROVER_requires(__CPROVER_is_fresh(ws, sizeof(*ws)) && WSF_LISTS_PRE(ws) && WSF_Q_OK(g_recvq) && ws->ready)
+__CPROVER_requires(__CPROVER_is_fresh(frame, sizeof(ws_frame)) && __CPROVER_pointer_in_range_dfcc(frame, ws->rxframe, frame) && g_the_frame == frame)
+/* bound of the frame queue model: at most WSF_K-1 frames are queued before this one */
+__CPROVER_requires(g_rxq.n < WSF_K && g_txq.n < WSF_K && WSF_TXQ_PRE && WSF_RXQ_PRE)
+__CPROVER_requires(g_eq == 0 || g_eq == WSF_EQ_RX)
+/* the decoded opcode field holds bits 0-6 of the first header byte */
+__CPROVER_requires(frame->aio == NULL && (unsigned) frame->op <= 0x7fu && WSF_PAYLOAD_PRE(frame))
+/* ghost equation: g_hb is the (unmasked) payload byte at index g_hk == g_k */
+__CPROVER_requires((g_eq == WSF_EQ_RX && g_k < frame->len) ==> (g_hk == g_k && g_hb == frame->buf[g_k]))
+__CPROVER_assigns(ws->closed, ws->wclose, ws->peer_closed, ws->inmsg, ws->rxframe, ws->txframe, WSF_IOV_OF(ws->txaio),
+	g_recvq, g_rxq, g_txq, WSF_FIN_GHOSTS, WSF_CLOSE_GHOSTS, WSF_CTL_GHOSTS, WSF_WR_GHOSTS, g_io_http, WSF_ALLOC_GHOSTS, WSF_RAND_GHOSTS,
+	g_aio_close_calls, g_aio_reset_calls, g_start_calls, WSF_SNAP_GHOSTS, WSF_MSG_GHOSTS;
+	g_rxq.n >= 1: g_rxq.item[0]->len, g_rxq.item[0]->buf;
+	g_rxq.n >= 2: g_rxq.item[1]->len, g_rxq.item[1]->buf;
+	frame->len, frame->buf)
+__CPROVER_frees(frame, frame->adata)
+WSF_STAGE_C_ENSURES(1, FC_X, FC_FIN, FC_LEN)
+/* the payload is handed over as it is */
+__CPROVER_ensures((SC_DATA_OK(FC_X, FC_FIN, FC_LEN) && g_eq == WSF_EQ_RX && g_k < FC_LEN) ==> (g_fin_fbuf == OLD(frame->buf) && g_fin_fb == g_hb))
+/* where the next read goes: nowhere if the connection failed or the peer closed (the frame stays put), else the frame has left the read slot */
+__CPROVER_ensures((SC_DATA_OK(FC_X, FC_FIN, FC_LEN) || SC_IS(FC_X, FC_FIN, FC_LEN, WS_OP_PING) || SC_IS(FC_X, FC_FIN, FC_LEN, WS_OP_PONG)) ? (ws->rxframe == NULL && (SC_QUIET || SC_OOM)) : (ws->rxframe == frame && ws->closed))
+;
+#undef WS
+#undef OF
+#undef SC_OOM
+
+/* -- ws_read_cb -- */
 #define WS ((nni_ws *) arg)
 #define FR (WS->rxframe)                      /* the frame (pre-state) */
 #define OF OLD(WS->rxframe)                   /* the frame (in postconditions) */
 #define HP(i) (WS->rxframe->head[i])          /* header bytes now (preconditions) */
 #define HB(i) OLD(WS->rxframe->head[i])       /* header bytes as received (postconditions) */
+/* the only other way to end up closing: no memory for the NEXT frame after this one was accepted */
+#define SC_OOM (g_close_calls == OLD(g_close_calls) + 1 && g_close_code == WS_ST_INTERNAL && WS->rxframe == NULL)
 #define WSF_NONE 0
 #define WSF_HEAD 1
 #define WSF_EXT 2
@@ -180,29 +275,21 @@ __CPROVER_assigns(WSF_FINISH_ASSIGNS)
 #define RXQ_L0 (g_rxq.n >= 1 ? g_rxq.item[0]->len : (size_t) 0)
 #define RXQ_L1 (g_rxq.n >= 2 ? g_rxq.item[1]->len : (size_t) 0)
 #define RXQ_SUM (RXQ_L0 + RXQ_L1)
-#define O_RXQ_SUM ((OLD(g_rxq.n) >= 1 ? OLD(g_rxq.item[0]->len) : (size_t) 0) + (OLD(g_rxq.n) >= 2 ? OLD(g_rxq.item[1]->len) : (size_t) 0))
 #define WSF_LIMITS(w) ((w)->maxframe <= NNI_MAXSZ && (w)->recvmax <= NNI_MAXSZ)
 /* size rules (nng options): frame above maxframe, or message above recvmax (message mode only) */
 #define WSF_TOO_BIG(w, len, sum) (((w)->maxframe > 0 && (len) > (w)->maxframe) || (!(w)->isstream && (w)->recvmax > 0 && (len) > (w)->recvmax - (sum)))
-/* stage DATA: header complete and checked, payload buffer chosen */
+/* stage DATA: header complete and checked */
 #define WSF_DATA_CHECKED(w, h, sum) (WS_LEN_MINIMAL(h) && WS_MASK_OK(h, (w)->server) && !WSF_TOO_BIG(w, WS_PAYLEN(h), sum))
 
 #define O_RES OLD(WS->rxaio.a_result)
 #define RD_OK (O_RES == 0)
-#define RXQ_SAME WSF_FQ_SAME(g_rxq)
-#define FIN_RXQ_SAME (g_fin_rxq.n == OLD(g_rxq.n) && (g_fin_rxq.n < 1 || g_fin_rxq.item[0] == OLD(g_rxq.item[0])) && (g_fin_rxq.n < 2 || g_fin_rxq.item[1] == OLD(g_rxq.item[1])))
-/* no frame was added to the message being reassembled */
-#define NOT_ADDED ((g_finish_calls == OLD(g_finish_calls) && RXQ_SAME) || (g_finish_calls == OLD(g_finish_calls) + 1 && FIN_RXQ_SAME))
-#define NO_PONG (g_ctl_calls == OLD(g_ctl_calls) || (g_ctl_calls == OLD(g_ctl_calls) + 1 && g_ctl_op == WS_OP_CLOSE))
-/* the connection is failed: ws_close exactly once; nothing delivered, no reply to the frame, no further read */
-#define FAILED_ANY (g_close_calls == OLD(g_close_calls) + 1 && g_rd_calls == OLD(g_rd_calls) && g_finish_calls == OLD(g_finish_calls) && RXQ_SAME && WS->closed && NO_PONG && WS->inmsg == OLD(WS->inmsg))
-#define FAILED(code) (FAILED_ANY && g_close_code == (code))
 #define STILL_OPEN (g_close_calls == OLD(g_close_calls) && g_finish_calls == OLD(g_finish_calls) && RXQ_SAME && g_ctl_calls == OLD(g_ctl_calls) && WS->rxframe == OF && WS->closed == OLD(WS->closed) && WS->inmsg == OLD(WS->inmsg))
 #define ARMED(bufp, n) (WS->rxaio.a_nio == 1 && WS->rxaio.a_iov[0].iov_buf == (void *) (bufp) && WS->rxaio.a_iov[0].iov_len == (n) && g_rd_calls == OLD(g_rd_calls) + 1 && g_rd_aio == &WS->rxaio && g_io_http == WS->http)
 #define HEAD_KEPT (OF->head[0] == HB(0) && OF->head[1] == HB(1) && OF->head[2] == HB(2) && OF->head[3] == HB(3) && OF->head[4] == HB(4) && OF->head[5] == HB(5) && OF->head[6] == HB(6) && OF->head[7] == HB(7) && OF->head[8] == HB(8) && OF->head[9] == HB(9) && OF->head[10] == HB(10) && OF->head[11] == HB(11) && OF->head[12] == HB(12) && OF->head[13] == HB(13))
 
 /* guards: which stages this invocation runs through */
 #define PLEN WS_PAYLEN(HB)
+#define O_RXQ_SUM OLD(g_u64)
 #define B_VIOL_P (WS_LEN_SHORT(HB) || !WS_MASK_OK(HB, WS->server))
 #define B_VIOL_S (!WS_LEN_SHORT(HB) && WSF_TOO_BIG(WS, PLEN, O_RXQ_SUM))
 #define B_TOP WS_LEN_TOPBIT(HB)
@@ -217,21 +304,18 @@ __CPROVER_assigns(WSF_FINISH_ASSIGNS)
 #define G_B (0)
 #define G_C (RD_OK)
 #endif
-#define C_BAD WS_HDR_BAD_OPBITS(HB)
-#define C_OPC WS_OPC(HB)
-#define C_UNSUPP (C_OPC == WS_OP_TEXT && !WS->recv_text)
-#define C_SEQ_BAD ((C_OPC == WS_OP_CONT && !OLD(WS->inmsg)) || (WS_OP_IS_DATA(C_OPC) && OLD(WS->inmsg)))
-#define C_DATA_OK (!C_BAD && !WS_OP_IS_CTL(C_OPC) && !C_UNSUPP && !C_SEQ_BAD)
+#define C_X (HB(0) & 0x7fu)
+#define C_BAD SC_BAD(C_X, WS_FIN(HB), PLEN)
 #define C_WAS_MASKED WS_MASKED(HB)
 
 static void ws_read_cb(void *arg)
 __CPROVER_requires(__CPROVER_is_fresh(arg, sizeof(nni_ws)) && WSF_LISTS_PRE(WS) && VP_NO_LOCK_HELD && WS->ready && WSF_LIMITS(WS))
 __CPROVER_requires(WSF_Q_OK(g_recvq))
 /* bound of the frame queue model: at most WSF_K-1 frames are queued before this one */
-__CPROVER_requires(g_rxq.n < WSF_K && g_txq.n < WSF_K && WSF_TXQ_PRE)
-__CPROVER_requires((g_rxq.n < 1 || __CPROVER_is_fresh(g_rxq.item[0], sizeof(ws_frame))) && (g_rxq.n < 2 || __CPROVER_is_fresh(g_rxq.item[1], sizeof(ws_frame))))
-/* invariant of the reassembly queue in message mode: what is queued was admitted under recvmax */
+__CPROVER_requires(g_rxq.n < WSF_K && g_txq.n < WSF_K && WSF_TXQ_PRE && WSF_RXQ_PRE)
+/* invariant of the reassembly queue in message mode: what is queued was admitted under recvmax; g_u64 names the sum */
 __CPROVER_requires((!WS->isstream && WS->recvmax > 0) ==> (RXQ_L0 <= WS->recvmax && RXQ_L1 <= WS->recvmax && RXQ_SUM <= WS->recvmax))
+__CPROVER_requires(g_u64 == RXQ_SUM)
 __CPROVER_requires(g_eq == 0 || g_eq == WSF_EQ_RX)
 #if WSF_CASE == WSF_NONE
 __CPROVER_requires(WS->rxframe == NULL)
@@ -244,10 +328,10 @@ __CPROVER_requires(WSF_HEAD_INV(FR))
 __CPROVER_requires(WSF_EXT_INV(FR, HP))
 #elif WSF_CASE == WSF_DATA
 __CPROVER_requires(WSF_DECODED(FR, HP) && FR->len == WS_PAYLEN(HP) && FR->len > 0 && WSF_DATA_CHECKED(WS, HP, RXQ_SUM))
-__CPROVER_requires((FR->len < 126 && FR->asize == 0 && FR->adata == NULL && __CPROVER_pointer_in_range_dfcc(&FR->sdata[0], FR->buf, &FR->sdata[0])) || (FR->len >= 126 && FR->asize == FR->len && __CPROVER_is_fresh(FR->adata, FR->len) && __CPROVER_pointer_in_range_dfcc(FR->adata, FR->buf, FR->adata)))
+__CPROVER_requires(WSF_PAYLOAD_PRE(FR))
 __CPROVER_requires(FR->masked ==> (FR->mask[0] == FR->head[FR->hlen - 4] && FR->mask[1] == FR->head[FR->hlen - 3] && FR->mask[2] == FR->head[FR->hlen - 2] && FR->mask[3] == FR->head[FR->hlen - 1]))
-/* ghost equation: g_b is the payload byte at index g_k as it arrived */
-__CPROVER_requires((g_eq == WSF_EQ_RX && g_k < FR->len) ==> g_b == FR->buf[g_k])
+/* ghost equations: g_b is the payload byte at index g_k as it arrived, g_hb the same byte unmasked */
+__CPROVER_requires((g_eq == WSF_EQ_RX && g_k < FR->len) ==> (g_b == FR->buf[g_k] && g_hk == g_k && g_hb == (uint8_t) (FR->masked ? (g_b ^ FR->mask[g_k & 3]) : g_b)))
 #endif
 __CPROVER_assigns(VP_SYNC_GHOSTS, WS->closed, WS->wclose, WS->peer_closed, WS->inmsg, WS->rxframe, WS->txframe,
 	WSF_IOV_OF(WS->rxaio), WSF_IOV_OF(WS->txaio),
@@ -281,8 +365,8 @@ __CPROVER_ensures((RD_OK && WS_HLEN(HB) != 2) ==> (STILL_OPEN && HEAD_KEPT && WS
 #endif
 #if WSF_CASE == WSF_HEAD || WSF_CASE == WSF_EXT
 /* --- stage B: the header is complete --- */
-/* non-minimal length, wrong masking for our role, frame or message too big: failed, nothing allocated, nothing delivered */
-__CPROVER_ensures((G_B && !B_OK) ==> (FAILED_ANY && g_alloc_ok <= OLD(g_alloc_ok) + 1 && (g_alloc_ok == OLD(g_alloc_ok) || g_ctl_calls != OLD(g_ctl_calls))))
+/* non-minimal length, wrong masking for our role, frame or message too big: failed; no payload buffer was obtained, nothing delivered */
+__CPROVER_ensures((G_B && !B_OK) ==> (FAILED_ANY && g_alloc_ok <= OLD(g_alloc_ok) + 1 && (g_alloc_ok == OLD(g_alloc_ok) || g_ctl_calls != OLD(g_ctl_calls)) && OF->adata == NULL))
 __CPROVER_ensures((G_B && !B_OK) ==> (g_close_code == WS_ST_PROTO || g_close_code == WS_ST_TOOBIG || (B_TOP && g_close_code == WS_ST_INTERNAL)))
 __CPROVER_ensures((G_B && B_VIOL_P && !B_VIOL_S && !B_TOP) ==> g_close_code == WS_ST_PROTO)
 __CPROVER_ensures((G_B && B_VIOL_S && !B_VIOL_P && !B_TOP) ==> g_close_code == WS_ST_TOOBIG)
@@ -295,22 +379,11 @@ __CPROVER_ensures((G_B && B_OK && PLEN > 0 && g_close_calls == OLD(g_close_calls
 __CPROVER_ensures((G_B && B_OK && PLEN > 0 && g_close_calls != OLD(g_close_calls) && !C_BAD) ==> (PLEN >= 126 && g_close_code == WS_ST_INTERNAL))
 #endif
 /* --- stage C: the frame is complete --- */
-/* reserved bits, unknown opcode, fragmented or over-long control frame: failed (protocol error) */
-__CPROVER_ensures((G_C && C_BAD) ==> FAILED(WS_ST_PROTO))
-/* text frame while text is not accepted (NNG_OPT_WS_RECV_TEXT off), continuation without a start, new message inside a fragmented one: failed */
-__CPROVER_ensures((G_C && !C_BAD && !WS_OP_IS_CTL(C_OPC) && (C_UNSUPP || C_SEQ_BAD)) ==> (FAILED_ANY && ((C_UNSUPP && g_close_code == WS_ST_UNSUPP) || (C_SEQ_BAD && g_close_code == WS_ST_PROTO))))
-/* acceptable data frame: handed to reassembly at the END of the queue, exactly once, with exactly the decoded length; payload unmasked */
-__CPROVER_ensures((G_C && C_DATA_OK) ==> (g_close_calls == OLD(g_close_calls) && g_finish_calls == OLD(g_finish_calls) + 1 && g_fin_rxq.n == OLD(g_rxq.n) + 1 && g_fin_rxq.item[(OLD(g_rxq.n)) % WSF_K] == OF && (OLD(g_rxq.n) < 1 || g_fin_rxq.item[0] == OLD(g_rxq.item[0])) && (OLD(g_rxq.n) < 2 || g_fin_rxq.item[1] == OLD(g_rxq.item[1]))))
-__CPROVER_ensures((G_C && C_DATA_OK) ==> (g_fin_flen == PLEN && g_fin_inmsg == !WS_FIN(HB) && g_ctl_calls == OLD(g_ctl_calls) && WS->rxframe != OF))
+WSF_STAGE_C_ENSURES(G_C, C_X, WS_FIN(HB), PLEN)
 #if WSF_CASE == WSF_DATA
-__CPROVER_ensures((G_C && C_DATA_OK && g_eq == WSF_EQ_RX && g_k < PLEN) ==> (g_fin_fbuf == OLD(WS->rxframe->buf) && g_fin_fb == (uint8_t) (C_WAS_MASKED ? (g_b ^ OLD(WS->rxframe->mask[g_k & 3])) : g_b)))
+/* the payload handed over is the payload received, unmasked (5.3) */
+__CPROVER_ensures((G_C && SC_DATA_OK(C_X, WS_FIN(HB), PLEN) && g_eq == WSF_EQ_RX && g_k < PLEN) ==> (g_fin_fbuf == OLD(WS->rxframe->buf) && g_fin_fb == (uint8_t) (C_WAS_MASKED ? (g_b ^ OLD(WS->rxframe->mask[g_k & 3])) : g_b)))
 #endif
-/* PING: answered by ONE PONG of the same length (5.5.3) unless we are closing; PONG: ignored; neither reaches the application */
-__CPROVER_ensures((G_C && !C_BAD && C_OPC == WS_OP_PING) ==> (g_close_calls == OLD(g_close_calls) && NOT_ADDED && WS->inmsg == OLD(WS->inmsg) && (OLD(WS->closed) ? g_ctl_calls == OLD(g_ctl_calls) : (g_ctl_calls == OLD(g_ctl_calls) + 1 && g_ctl_op == WS_OP_PONG && g_ctl_len == PLEN))))
-__CPROVER_ensures((G_C && !C_BAD && C_OPC == WS_OP_PONG) ==> (g_close_calls == OLD(g_close_calls) && NOT_ADDED && WS->inmsg == OLD(WS->inmsg) && g_ctl_calls == OLD(g_ctl_calls)))
-/* CLOSE: remembered; answered by a close (normal closure) if we were not closing already; nothing more is read */
-__CPROVER_ensures((G_C && !C_BAD && C_OPC == WS_OP_CLOSE) ==> (WS->peer_closed && WS->closed && NOT_ADDED && g_finish_calls == OLD(g_finish_calls) && g_rd_calls == OLD(g_rd_calls) && NO_PONG))
-__CPROVER_ensures((G_C && !C_BAD && C_OPC == WS_OP_CLOSE) ==> (OLD(WS->closed) ? (g_close_calls == OLD(g_close_calls) && g_fin_calls == OLD(g_fin_calls) + 1 && g_fin_last == &WS->closeaio && g_fin_last_rv == 0) : (g_close_calls == OLD(g_close_calls) + 1 && g_close_code == WS_ST_NORMAL)))
 ;
 /* clang-format on */
 #endif
